@@ -378,7 +378,7 @@ func c15Drive(c c15case, fail func(key, msg string)) (proposals int) {
 
 func c15Cases(shard, shards int, tier string) []c15case {
 	var out []c15case
-	incs := []uint64{1, 1000, 1_000_000, 1_000_000_000}
+	incs := []uint64{1, 1000, 1_000_000, 1_000_000_000, 7_000_000, 13_000_000_000, 1 << 20}
 	i := 0
 	for _, inc := range incs {
 		for _, base := range []uint64{0, 1_700_000_000_000_000_000} {
@@ -486,7 +486,7 @@ func init() {
 			}
 		}
 		rc := finishEnum("C15", tier, start, props, drives-empty, fails, samples,
-			"full grid: increment {1ns,1us,1ms,1s} x previous timestamp {0,1,inc-1,inc,7inc-1,7inc,7inc+1} (+0 and +1.7e18 base) x clock = previous + {-2inc,-1,0,+1,inc-1,inc,inc+1,3.5inc} x every ordered selection of <=3 of 3 pool transactions (16 lists) x height {1,N,2^32-1} x view {0,1,2} (N=4, reached through real ChangeView quorums) x N {1,4} x anti-MEV off/on x dynamic block time off/on x {proposal forced in Start, proposal after Reset+OnTimeout}; each case is one real Start/OnReceive/Reset/OnTimeout drive; evaluations = proposals broadcast and checked (a single-node drive proposes for two heights), distinct_nontrivial = distinct grid points whose drive produced at least one proposal",
+			"full grid: increment {1ns,1us,1ms,1s,7ms,13s,2^20ns} x previous timestamp {0,1,inc-1,inc,7inc-1,7inc,7inc+1} (+0 and +1.7e18 base) x clock = previous + {-2inc,-1,0,+1,inc-1,inc,inc+1,3.5inc} x every ordered selection of <=3 of 3 pool transactions (16 lists) x height {1,N,2^32-1} x view {0,1,2} (N=4, reached through real ChangeView quorums) x N {1,4} x anti-MEV off/on x dynamic block time off/on x {proposal forced in Start, proposal after Reset+OnTimeout}; each case is one real Start/OnReceive/Reset/OnTimeout drive; evaluations = proposals broadcast and checked (a single-node drive proposes for two heights), distinct_nontrivial = distinct grid points whose drive produced at least one proposal",
 			true, []string{"the same grid in both tiers (it is small enough to run in full)", "reading of 'whenever that is larger': the truncated clock must be used whenever it exceeds previous timestamp + increment; otherwise only 'strictly greater than the previous timestamp' is required"})
 		if bad {
 			return 2
